@@ -768,6 +768,48 @@ def rule_erasure_arity(ctx):
                           "only, so the linker's arity (and with it `last`) disagrees for such a tail" % ("::".join(fn.split("::")[-2:]), sorted(vs)),
                           [bd["loc"][0], a["ln"]], detail={"formers": sorted(vs)})
     ctx.floor(rule, "type patterns in ProductArity", n, 2)
+    # the checker's two enumerations of the components of a product: the search that numbers the positions of a field route, and
+    # the materialized components the route is indexed into. Both follow `Prod` tails only, without opening a sealed definition
+    fn = "zydeco_statics::check::DeferredValueFieldCandidate::materialized_product_components_k"
+    h = facts.hir(fn)
+    if h is None:
+        ctx.anchor_lost(rule, fn + " not found")
+    else:
+        ctx.fn(fn)
+        k = 0
+        for m in H.walk(h["body"]):
+            if H.kind(m) != "Match" or m.get("src"):
+                continue
+            for a in m["arms"]:
+                vs = set(v.split("::")[-1] for v in H.pat_variants(a["pat"])) - {"Some", "None", "Ok", "Err", "KontFailure"}
+                if vs:
+                    k += 1
+                    ctx.check(vs <= {"Prod"}, rule, "materialized_product_components_k:%s" % "+".join(sorted(vs)),
+                              "the materialized components of a field route look through %s: the linker's ProductArity follows Prod only"
+                              % sorted(vs), [facts.bodies()[fn]["loc"][0], a["ln"]], detail={"formers": sorted(vs)})
+        opens = [c for c in H.walk(h["body"]) if H.kind(c) in ("Call", "MethodCall") and re.search(r"::(unroll\w*|reveal_k)$", H.callee(c) or "")]
+        ctx.check(k >= 1 and not opens, rule, "materialized_product_components_k:no-unroll", "the materialized components of a field route "
+                  "are enumerated through an unrolling view (%s) or without a Prod pattern" % [H.callee(c) for c in opens],
+                  facts.bodies()[fn]["loc"])
+    fn = "zydeco_statics::check::FieldProjectionResolver::product_components_k"
+    h = facts.hir(fn)
+    if h is None:
+        ctx.anchor_lost(rule, fn + " not found")
+    else:
+        ctx.fn(fn)
+        env = A.ArmEnv()
+        env.strip = True
+        env.bind_params(h)
+        env.absorb(h["body"])
+        reveals = [c for c in H.walk(h["body"]) if H.kind(c) in ("Call", "MethodCall") and (H.callee(c) or "").endswith("DeferredEnvType::reveal_k")]
+        recv = [A.sexpr(H.call_args(c)[0], env) for c in reveals]
+        filled = [c for c in H.walk(h["body"]) if H.kind(c) in ("Call", "MethodCall") and re.search(r"::type_filled(_k)?$", H.callee(c) or "")]
+        ok = bool(reveals) and all(re.match(r"^\$P\d+$", r) for r in recv) and bool(filled)
+        ctx.check(ok, rule, "product_components_k:tail-not-revealed", "the search that numbers the components of a product for a named "
+                  "projection applies the seal-opening view (reveal_k) to %s: a tail that is a product only behind a sealed definition "
+                  "(`define Rest = (y :: A) * (z :: B)`, `T = (x :: C) * Rest`) would be numbered x=0, y=1, z=2 while the materialized "
+                  "route and the run-time layout see the pair (x, Rest): `t/y` selects the whole tail and `t/z` indexes past the "
+                  "materialized components" % recv, facts.bodies()[fn]["loc"], detail={"reveal_k on": recv, "type_filled tests": len(filled)})
 
 
 def rule_generativity(ctx):
